@@ -112,7 +112,15 @@ def run(chk, ctx):
     unknown = []
     bad_all = []
 
+    kept = []
+    from .c16 import shared_effects
+
     def scan_outputs(it, outs, where):
+        # state kept between calls: what one encode call leaves in a
+        # module- or class-level object, the next one starts from
+        for e_ in shared_effects(it):
+            if e_.kind != 'raise-shared-exception':
+                kept.append((where, e_))
         for o in outs:
             terms = []
             if o.kind == 'return' and isinstance(o.value, (Sym, tuple)):
@@ -193,6 +201,20 @@ def run(chk, ctx):
     chk.ob('C12.D', 'run-time state read', okg,
            'run-time globals that influence the output: %r' %
            sorted(globals_read))
+    kseen = set()
+    for where, e_ in kept:
+        k_ = (e_.kind, e_.site)
+        if k_ in kseen:
+            continue
+        kseen.add(k_)
+        chk.ob('C12.D', 'state kept by %s at %s' % (e_.kind, e_.site), False,
+               'encoding %s writes a module- or class-level object (%s %s): '
+               'the next encode call starts from what this one left there, '
+               'so the same frame need not encode the same way twice' %
+               (where, e_.kind, str(e_.detail)[:60]), site=e_.site)
+    chk.ob('C12.D', 'no state kept between encode calls', not kept,
+           '%d abstract runs, %d writes to module- or class-level objects' %
+           (runs, len(kept)))
     chk.ob('C12.D', 'nondeterministic primitives', not nondet,
            'none reachable' if not nondet else '; '.join(nondet[:3]))
     if unknown:
